@@ -18,11 +18,12 @@ import (
 
 func init() {
 	fw.Register(&fw.Prop{
-		ID:       "C17",
-		Builds:   []string{"default", "386"}, // the 386 build runs 1/6 of the random classes on a 32-bit target
-		Scale386: 6,
-		Parallel: 4, // cases are judged on 4 goroutines per shard: the library functions are stateless, shared state inside them shows up as wrong verdicts
-		Rule: "calls Add, Double, ScalarMult, ScalarBaseMult, IsOnCurve on both copies of the curve (pkg/slip10/btccurve and the internal one behind elliptic.Secp256k1()) with points {G, [k]G small/random k, lifted random x, constructed boundary points with x or y in [n, p) or y close to 0, -P, (0,0)} in pairs {random, P=Q, P=-Q, identity operand(s)} and scalars {empty, 0, 1, 2, n-1, n, n+1, n+2, 2n, 2^256-1, k with [k] hitting +-P midway, random 1..40 bytes, 0..8 leading zero bytes}; each result compared with the affine model (identity as (0,0)); algebraic identities [a]P+[b]P=[a+b]P, [n]P=O, commutativity on the library alone. " +
+		ID:                  "C17",
+		DeadlockIsViolation: true,                       // the calls of this property are synchronous functions of their inputs: a call blocked for good inside the library is a violation
+		Builds:              []string{"default", "386"}, // the 386 build runs 1/6 of the random classes on a 32-bit target
+		Scale386:            6,
+		Parallel:            4, // cases are judged on 4 goroutines per shard: the library functions are stateless, shared state inside them shows up as wrong verdicts
+		Rule: "calls Add, Double, ScalarMult, ScalarBaseMult, IsOnCurve on both copies of the curve (pkg/slip10/btccurve and the internal one behind elliptic.Secp256k1()) with points {G, [k]G small/random k, lifted random x, constructed boundary points with x or y in [n, p) or y close to 0, -P, (0,0)} in pairs {random, P=Q, P=-Q, identity operand(s)} and scalars {empty, 0, 1, 2, n-1, n, n+1, n+2, 2n, 2^256-1, k with [k] hitting +-P midway, random 1..40 bytes, sparse scalars of up to 100 bytes (2^a, 2^a+2^b, 2^a+small, a<800: zero runs of several hundred bits), 0..8 leading zero bytes}; each result compared with the affine model (identity as (0,0)); algebraic identities [a]P+[b]P=[a+b]P, [n]P=O, commutativity on the library alone. " +
 			"Non-trivial: distinct calls in a corner class (equal, opposite, identity operand, scalar = 0 mod n, scalar >= n, leading zeros, off-curve neighbours for IsOnCurve).",
 		Assumptions: []string{"math/big", "the affine model in harness/oracle/weier (self-tested: published 2G/3G, [n]G=O, agreement with crypto/elliptic on P-256)"},
 		SelfTest:    weier.SelfTest,
@@ -443,7 +444,23 @@ func cornerScalars() [][]byte {
 
 func randScalar(g *fw.Gen, corners [][]byte) []byte {
 	var k []byte
-	switch g.Rng.Intn(4) {
+	switch g.Rng.Intn(5) {
+	case 4:
+		// sparse scalars of 1..100 bytes: 2^a, 2^a + 2^b, 2^a + small, with runs of several hundred zero
+		// bits between the set bits (window and digit recodings count such runs)
+		a := g.Rng.Intn(800)
+		v := new(big.Int).Lsh(big.NewInt(1), uint(a))
+		switch g.Rng.Intn(4) {
+		case 0:
+		case 1:
+			v.Add(v, new(big.Int).Lsh(big.NewInt(1), uint(g.Rng.Intn(a+1))))
+		case 2:
+			v.Add(v, big.NewInt(int64(g.Rng.Intn(256))))
+		default: // a few random low bytes, a long gap, a few random high bits
+			v.Mul(v, big.NewInt(int64(1+g.Rng.Intn(255))))
+			v.Add(v, new(big.Int).SetBytes(g.Bytes(1+g.Rng.Intn(3))))
+		}
+		k = v.Bytes()
 	case 0:
 		k = append([]byte(nil), corners[g.Rng.Intn(len(corners))]...)
 	case 1:
